@@ -36,10 +36,11 @@ type tableInfo struct {
 }
 
 type zoo struct {
-	order  []string // registration order
-	schema *sqlgen.Schema
-	tables []*tableInfo
-	byName map[string]*tableInfo
+	order    []string    // registration order
+	rejected [][2]string // tables RegisterType refused (name, error)
+	schema   *sqlgen.Schema
+	tables   []*tableInfo
+	byName   map[string]*tableInfo
 }
 
 // buildZoo registers the zoo's tables in an order that is a function of the
@@ -54,13 +55,24 @@ func buildZoo(seed int64) (*zoo, error) {
 		if td.name == "users" {
 			pk = sqlgen.AutoIncrement
 		}
-		if err := z.schema.RegisterType(td.name, pk, td.proto); err != nil {
-			return nil, fmt.Errorf("RegisterType(%s): %v", td.name, err)
+		var rerr error
+		if pn := safely(func() { rerr = z.schema.RegisterType(td.name, pk, td.proto) }); pn != nil {
+			rerr = fmt.Errorf("panic: %v", pn)
+		}
+		if rerr != nil {
+			// RegisterType validates a column by sending its zero value through the
+			// column's own Valuer and Scanner: a refusal of a zoo table (all of them
+			// are supported combinations) is a failed round trip, not a harness fault.
+			z.rejected = append(z.rejected, [2]string{td.name, rerr.Error()})
+			continue
 		}
 		z.order = append(z.order, td.name)
 	}
 	for k, td := range zooTables {
 		t := z.schema.ByName[td.name]
+		if t == nil {
+			continue
+		}
 		ti := &tableInfo{name: td.name, typ: t.Type, table: t, isCol: map[string]bool{}}
 		for _, c := range t.Columns {
 			f := t.Type.FieldByIndex(c.Index)
@@ -345,6 +357,8 @@ func TestCheck(t *testing.T) {
 	run.Assume("json columns with untyped slots (tags table: map[string]interface{}, []interface{}, struct and *struct with interface{} / map / list members, a bare interface{} field; nested to depth 2) hold exactly what encoding/json itself puts into an interface{}: " +
 		"float64 (integral, fractional, > 2^53, negative, exponent-sized), bool, nil, strings incl. number-looking ones, nested lists and maps; compared with reflect.DeepEqual on the Go values in every source form, through batches, testers and FilterFromProto; " +
 		"Go integers or typed nils inside an interface{} are not generated (JSON cannot return them)")
+	run.Assume("valuers table: dualCodec implements driver.Valuer+sql.Scanner and also TextMarshaler, BinaryMarshaler, Marshal/Unmarshal and has a natural JSON form, all forms different and each decoder strict about its own form; " +
+		"declared with no tag, string, binary, json, as value / pointer / implicitnull: whatever form is written must be the form that is read, in every source form")
 	run.Assume("models_a / models_b: column types are distinct named types with identical reflect.Type.String() (c13/a/models and c13/b/models, function-local types called Level), partly of different kinds; the registration order of all tables is a permutation drawn from the seed")
 	run.Assume("filters (3 per case over 0..all columns; rows R = x, an unrelated row and two hybrids, each as decoded from MySQL's text form): judged when every value denotes a value of its column's Go type " +
 		"(own value, pointer to / dereferenced value, typed or untyped nil, the same integer in another Go integer type, the plain column's driver value); filters with a foreign-typed, out-of-range or inexact value, " +
@@ -358,6 +372,14 @@ func TestCheck(t *testing.T) {
 		return
 	}
 	run.Set("registration_order", strings.Join(z.order, ","))
+	for _, rj := range z.rejected {
+		fmt.Println("CASE registration of", rj[0])
+		run.Violation(0, "", map[string]interface{}{"what": "RegisterType refused a table of supported column types: the zero value of a column does not survive its own Valuer -> Scanner round trip (that is what registration checks)",
+			"table": rj[0], "err": rj[1]})
+	}
+	if len(z.tables) == 0 {
+		return
+	}
 	// Pin the binlog forms of the model to what the real go-mysql decoder returns.
 	// Only harness-made values are used here (never thunder output), so a
 	// disagreement is a harness fault by construction.
